@@ -32,6 +32,9 @@ type Knobs struct {
 	MinHorizonH      int
 	MaxHorizonH      int
 	NewObjects       bool
+	ExtMax           int  // outside writes per plan (default 4)
+	ProbeMax         int  // probes per plan (default 6)
+	ProbeAtExt       bool // place probes around outside writes
 }
 
 var hChoices = []time.Duration{100 * time.Millisecond, 200 * time.Millisecond, 300 * time.Millisecond, 500 * time.Millisecond, 700 * time.Millisecond, time.Second}
@@ -250,7 +253,7 @@ func GenPlan(t *rapid.T, profile string, k Knobs) *Plan {
 		}
 	}
 	if k.Ext {
-		ne := rapid.IntRange(1, 4).Draw(t, "next")
+		ne := rapid.IntRange(1, max(4, k.ExtMax)).Draw(t, "next")
 		gs := p.Groups()
 		for j := 0; j < ne; j++ {
 			a := Action{At: at("ext_at", 0, p.Horizon-1), Key: rapid.SampledFrom(gs).Draw(t, "ext_key"), Inst: -1}
@@ -290,7 +293,7 @@ func GenPlan(t *rapid.T, profile string, k Knobs) *Plan {
 		}
 	}
 	if k.Probes {
-		np := rapid.IntRange(1, 6).Draw(t, "nprobes")
+		np := rapid.IntRange(1, max(6, k.ProbeMax)).Draw(t, "nprobes")
 		for j := 0; j < np; j++ {
 			a := Action{At: at("p_at", 0, p.Horizon-1), Inst: rapid.IntRange(0, n-1).Draw(t, "p_inst"),
 				Kind: rapid.SampledFrom([]string{ActProbe, ActProbe, ActProbeDem}).Draw(t, "p_kind")}
@@ -303,6 +306,19 @@ func GenPlan(t *rapid.T, profile string, k Knobs) *Plan {
 				a.CtxMode, a.CtxTimeout = "cancel_after", at("p_to", 1, h)
 			}
 			p.Timeline = append(p.Timeline, a)
+		}
+	}
+	if k.ProbeAtExt {
+		for _, a := range append([]Action(nil), p.Timeline...) {
+			if (a.Kind != ActExtPut && a.Kind != ActExtDelete) || rapid.IntRange(0, 2).Draw(t, "pae") == 0 {
+				continue
+			}
+			off := time.Duration(rapid.Int64Range(-int64(latMax)-int64(time.Millisecond), int64(h)).Draw(t, "pae_off"))
+			if a.At+off < 0 {
+				off = 0
+			}
+			p.Timeline = append(p.Timeline, Action{At: odd(a.At + off), Inst: rapid.IntRange(0, n-1).Draw(t, "pae_inst"),
+				Kind: rapid.SampledFrom([]string{ActProbe, ActProbe, ActProbeDem}).Draw(t, "pae_kind")})
 		}
 	}
 	sort.SliceStable(p.Timeline, func(i, j int) bool { return p.Timeline[i].At < p.Timeline[j].At })
